@@ -479,10 +479,12 @@ func (env *c04CkEnv) close() {
 
 // handler "late": reads the request, writes its response arguments, then waits (arg2 of the
 // request says for what) before it closes the last argument:
-//   'D' the call's deadline / cancellation        'G' a signal of the harness (lateGo)
-//   'N' nothing (control)
-//   'P' nothing, but instead of closing it reports a system error (SendSystemError in the middle
-//       of a response)             'S' closes, then reports a system error all the same
+//
+//	'D' the call's deadline / cancellation        'G' a signal of the harness (lateGo)
+//	'N' nothing (control)
+//	'P' nothing, but instead of closing it reports a system error (SendSystemError in the middle
+//	    of a response)             'S' closes, then reports a system error all the same
+//
 // arg3 of the request is echoed as arg3 of the response (its size decides how many fragments the
 // response has).
 func (env *c04CkEnv) late(ctx context.Context, call *tchannel.InboundCall) {
